@@ -292,4 +292,56 @@ def Stmt.argsOK : Stmt → Bool
   | .switch argc _ => argc == 1
   | _ => true
 
+/-! ## END and the end of the pass
+
+Written from `doc/pseudo-instructions.md`, section "END": "`END` marks the end of an assembler program.  Lines that
+eventually follow in the source file will be ignored.  IMPORTANT: `END` may be called from within a macro, but the
+`IF`-stack for conditional assembly is not cleared automatically.  The following construct therefore results in an
+error: `IF DontWantAnymore / END / ELSEIF`"; together with "'Open' constructs will lead to an error message at the
+end of an assembly path" and "a line that is not assembled has no effect at all" (an `END` in a branch that is not
+selected does not end anything).  So: the pass ends at the end of the text or at the first `END` that stands in an
+assembled part - written there directly, or issued by a macro / `REPT` body called there - and whatever is still
+open at that moment is an error, whatever text follows. -/
+
+/-- a source line: a conditional-assembly statement / ordinary line, or a line that issues `END` (the statement
+itself, with or without entry-point argument, or a call of a macro / a `REPT` whose body issues it) -/
+inductive Line where
+  | stmt (s : Stmt)
+  | endl
+deriving DecidableEq, Repr
+
+/-- the statements of a text, `END` lines left out -/
+def stmtsOf : List Line → List Stmt
+  | [] => []
+  | .stmt s :: r => s :: stmtsOf r
+  | .endl :: r => stmtsOf r
+
+/-- the statement that closes an open construct -/
+def closer : Open → Stmt
+  | .ifThen | .ifElse => .endif 0
+  | .swHead | .swCase | .swElse => .endcase 0
+
+/-- closing everything that is open, innermost first -/
+def closers (st : List Open) : List Stmt := st.map closer
+
+/-- `pre` leaves a construct open: every conditional statement stands in a legal position, but something is not closed -/
+def OpenAtEnd (pre : List Stmt) : Prop := ∃ o st, wnRun [] pre = some (o :: st)
+
+instance (pre : List Stmt) : Decidable (OpenAtEnd pre) :=
+  match h : wnRun [] pre with
+  | some (o :: st) => isTrue ⟨o, st, h⟩
+  | some [] => isFalse (by rintro ⟨o, st, h'⟩; rw [h] at h'; cases h')
+  | none => isFalse (by rintro ⟨o, st, h'⟩; rw [h] at h'; cases h')
+
+/-- an ordinary line used as a probe -/
+def probeLeaf : Leaf := { marker := 0 }
+
+/-- **Is the point behind `pre` in an assembled part?**  `pre` is the beginning of a skeleton's text (all statements
+in legal positions, constructs may be open).  Close every open construct right at the point - once as it is (`b0`), once
+with an ordinary line put at the point (`b1`): the point is assembled iff that line is among the documented selection,
+i.e. iff the selection of `b1` yields one code byte more (the probe's). -/
+def AssembledAt (pre : List Stmt) (live : Bool) : Prop :=
+  ∃ st b0 b1, wnRun [] pre = some st ∧ flatB b0 = pre ++ closers st ∧ flatB b1 = pre ++ .leaf probeLeaf :: closers st ∧
+    live = decide ((codeOf (selB b1)).length = (codeOf (selB b0)).length + 1)
+
 end AslModel.Cond
